@@ -465,9 +465,11 @@ example : ∀ op ∈ sampleOps, op.det false = true := by decide
 example : IsLogBound 7 4 := by
   unfold IsLogBound
   constructor <;> decide +kernel
-/-- removing the two-child root 4 of `sampleOps`' tree keeps the ids of all other items (see PropsIds.lean) -/
-example : (run false (sampleOps.take 8)).t.inorder.map (fun e => e.1) = [0, 2, 7, 3, 6, 1, 5, 4] ∧
-    (run false sampleOps).t.inorder.map (fun e => e.1) = [0, 2, 7, 6, 1, 5, 4] := by decide +kernel
+/-- removing the two-child root 4 of `sampleOps`' tree (in-order position 3) keeps the ids of all other items
+    (see PropsIds.lean); stated without the concrete ids, which depend on the items-per-block constant -/
+example : (run false sampleOps).t.inorder.map (fun e => e.1) =
+    ((run false (sampleOps.take 8)).t.inorder.map (fun e => e.1)).eraseIdx 3 ∧
+    ((run false (sampleOps.take 8)).t.inorder.map (fun e => e.1)).Nodup := by decide +kernel
 /-- an order embedding that is not a translation: `k ↦ 3k - 7` -/
 example : Mono (fun k => 3 * k - 7) := by intro a b; simp only; constructor <;> intro h <;> omega
 example : abs (run false (sampleOps.map (mapOp (fun k => 3 * k - 7)))) =
